@@ -176,6 +176,11 @@ impl<M: Math> LowRankMassMatrix<M> {
         if (!col_all_finite(&vals.as_ref())) | (!mat_all_finite(&vecs.as_ref())) {
             return;
         }
+        // Scales and eigenvalues have to be strictly positive: a zero would make the
+        // inverse transformation and the log-determinant infinite.
+        if stds.iter().any(|&x| x <= 0.0) | vals.iter().any(|&x| x <= 0.0) {
+            return;
+        }
 
         let mut stds_array = math.new_array();
         math.read_from_slice(&mut stds_array, stds.try_as_col_major().unwrap().as_slice());
